@@ -27,7 +27,8 @@ NearBounds(e) ==
 
 IntValues(c) ==
   LET e == Eff(c)
-  IN {x \in IntEdges \cup NearBounds(e) : Representable(c, x) /\ (Sat(c, x, BMin, BMax) \/ e.ext)}
+  \* out-of-root values of an extensible constraint are values too, within the non-extensible parent
+  IN {x \in IntEdges \cup NearBounds(e) : Representable(c, x) /\ (Sat(c, x, BMin, BMax) \/ (e.ext /\ InRange(OerEff(c), x)))}
 
 \* sizes to try for a SIZE constraint, capped
 SizeSamples(c, cap) ==
